@@ -587,7 +587,7 @@ func stripOAIGen(opts *FlattenOpts) (bool, error) {
 		debugLog("newRefs[%s]: isOAIGen: %t, resolved: %t, name: %s, path:%s, #parents: %d, parents: %v,  ref: %s",
 			k, r.isOAIGen, r.resolved, r.newName, r.path, len(r.parents), r.parents, r.schema.Ref.String())
 
-		if !r.isOAIGen || len(r.parents) == 0 {
+		if !r.isOAIGen || len(r.parents) == 0 || refersToItself(r) {
 			continue
 		}
 
@@ -603,6 +603,19 @@ func stripOAIGen(opts *FlattenOpts) (bool, error) {
 	opts.Spec.reload() // re-analyze
 
 	return replacedWithComplex, nil
+}
+
+// refersToItself tells whether one of the referers of a new definition lies inside this very definition.
+//
+// Such a recursive definition cannot be inlined back in one of its referers: it has to remain a named definition.
+func refersToItself(r *newRef) bool {
+	for _, parent := range r.parents {
+		if parent == r.path || strings.HasPrefix(parent, r.path+"/") {
+			return true
+		}
+	}
+
+	return false
 }
 
 // updateRefParents updates all parents of an updated $ref
